@@ -292,3 +292,93 @@ def enum_rows_thermal(tier):
 
 SUBS.append(Sub("elastic_rows", check_elastic, enum=enum_rows_elastic))
 SUBS.append(Sub("thermal_rows", check_thermal, enum=enum_rows_thermal))
+
+
+# ------------------------------------------------------------------------------------------
+# (added by the lead) "carries the mass" with a density / capacity FIELD: one value per element, or one value per
+# element and integration point, on meshes whose element count coincides with the number of integration points of the
+# mass or stiffness rule (the sizes at which a 1-D array of coefficients is ambiguous) and on meshes where it does not
+
+
+def _submesh(mesh, n):
+    """n elements spread over a single-type mesh as a mesh of its own (main group only, nodes renumbered)"""
+    from EasyFEA import Mesh
+    from EasyFEA.FEM._group_elem import GroupElemFactory
+
+    g = gm.main_groups(mesh)[0]
+    conn = np.asarray(g.connect, int)[np.round(np.linspace(0, g.Ne - 1, n)).astype(int)]
+    nodes, inv = np.unique(conn, return_inverse=True)
+    return Mesh({g.elemType: GroupElemFactory.Create(g.elemType, inv.reshape(conn.shape), np.asarray(mesh.coord, float)[nodes])})
+
+
+def enum_mass_fields(tier):
+    from EasyFEA import ElemType, MatrixType
+    from EasyFEA.FEM._gauss import Gauss
+
+    sq = [[1.0, 0.0], [0.3, 1.2], [-1.0, 0.2], [-0.1, -0.9]]  # a general quadrangle: elements of unequal size in every mesh
+    for et in gm.T2D + gm.T3D:
+        d3 = et in gm.T3D
+        shape = orc.shape_of(et)
+        r = dict(verts=sq, h=0.4, elemType=et, organised=shape in ("QUAD", "HEXA"), extrude=[0.1, 0.0, 0.9] if d3 else None,
+                 layers=3 if d3 else 0, A=None, b=None, perm=None, orphans=0)
+        counts = sorted({Gauss(ElemType(et), MatrixType.mass).nPg, Gauss(ElemType(et), MatrixType.rigi).nPg, 5})
+        for n in counts:
+            for form in ("per_element", "per_point"):
+                for sim in ("elastic", "thermal"):
+                    yield dict(recipe=r, n=n, form=form, sim=sim)
+
+
+def check_mass_fields(case, rec):
+    from EasyFEA import MatrixType
+
+    r = case["recipe"]
+    et = r["elemType"]
+    dim = gm.dim_of(et)
+    full = gm.build(r)
+    n = max(int(case["n"]), 2)
+    if full.Ne < n:
+        raise Inconclusive(f"the base mesh has {full.Ne} < {n} elements")
+    mesh = _submesh(full, n)
+    g = gm.main_groups(mesh)[0]
+    wJ = np.asarray(g.Get_weightedJacobian_e_pg(MatrixType.mass), float)
+    nPg = wJ.shape[1]
+    vol_e = wJ.sum(axis=1)
+    sig = dict(elemType=et, dim=dim, form=case["form"], sim=case["sim"], coincidence=("Ne==nPg" if n == nPg else "none"))
+    rec.label("field:" + case["form"], "sim:" + case["sim"], "sizes:" + sig["coincidence"])
+    assert float(np.ptp(vol_e)) > 1e-3 * float(vol_e.mean()), "harness: the elements of the sub-mesh have equal size"
+    rho_e = 0.5 + 1.5 * (np.arange(n) % 7) / 6.0 + 0.01 * np.arange(n)
+    if case["form"] == "per_element":
+        field = rho_e
+        exact = float(rho_e @ vol_e)
+    else:
+        field = rho_e[:, None] * (1.0 + 0.25 * np.arange(nPg)[None, :])
+        exact = float(np.sum(field * wJ))
+    th = 0.5 if dim == 2 else 1.0
+    if case["sim"] == "elastic":
+        mat = gmod.make_elastic(dict(cls="iso", dim=dim, planeStress=dim == 2, thickness=th, E=3.0, v=0.3, angles=[0.0] * (3 if dim == 3 else 1)))
+        simu = Simulations.Elastic(mesh, mat)
+        simu.rho = field.copy()
+        M = orc.dense(simu.Get_K_C_M_F()[2])
+        ncomp = dim
+    else:
+        simu = Simulations.Thermal(mesh, Models.Thermal(k=1.5, c=field.copy(), thickness=th))
+        simu.rho = 2.0
+        exact *= 2.0
+        M = orc.dense(simu.Get_K_C_M_F()[1])
+        ncomp = 1
+    exact *= th
+    _sym_psd(rec, M, "M", sig, pd=True)
+    for d in range(ncomp):
+        e = np.zeros((mesh.Nn, ncomp))
+        e[:, d] = 1.0
+        tot = float(e.ravel() @ M @ e.ravel())
+        rec.close(tot - exact, exact, 1e-11, "M_total_mass_field",
+                  f"{et} Ne={n} nPg(mass)={nPg} {case['sim']} {case['form']} coefficient: 1^T M 1 (direction {d}) = {tot!r} vs "
+                  f"sum of coefficient x weighted jacobian x thickness = {exact!r}", **sig)
+    if case["sim"] == "elastic":
+        rec.close(float(simu.mass) - exact, exact, 1e-11, "simu_mass_field", f"simu.mass={simu.mass!r} vs {exact!r}", **sig)
+    rec.nontrivial(True)
+
+
+SUBS.append(Sub("mass_fields", check_mass_fields, enum=enum_mass_fields,
+                doc="element type x element count (= mass points, = stiffness points, 5) x per-element / per-point density or capacity x elastic / thermal"))
